@@ -979,12 +979,16 @@ class HSM2Dongle:
         response = self.RESPONSE.ADVANCE
 
         # Sort each group of brothers by block hash
-        brothers = list(map(lambda brolist:
-                            sorted(brolist,
-                                   key=lambda bh: bytes.fromhex(get_block_hash(bh))
-                                   ),
-                            brothers)
-                        )
+        try:
+            brothers = list(map(lambda brolist:
+                                sorted(brolist,
+                                       key=lambda bh: bytes.fromhex(get_block_hash(bh))
+                                       ),
+                                brothers)
+                            )
+        except ValueError as e:
+            self.logger.error("Advance: invalid brother: %s", str(e))
+            return (False, response.ERROR_INVALID_BROTHERS)
 
         return self._do_block_operation(
             "advance",
